@@ -84,6 +84,7 @@ func Verif_C03_BlockKernel() {
 	src := verifrt.Bytes(64 * nb)
 	dst := make([]byte, 64*nb)
 	c.xorKeyStreamBlocksGeneric(dst, src)
+	c03CheckPrecomp(c)
 	for b := 0; b < nb; b++ {
 		ks := refBlock(&c.key, ctr0+uint32(b), &c.nonce)
 		for i := 0; i < 64; i++ {
@@ -165,36 +166,127 @@ func Verif_C03_New() {
 	verifrt.Assert(c.counter == 0 && c.len == 0 && !c.overflow && !c.precompDone, "fresh cipher state")
 }
 
-// stream byte at absolute block index blk (uint64, < 2^32) and offset off
-func c03Expect(c *Cipher, blk uint64, off int) byte {
-	ks := refBlock(&c.key, uint32(blk), &c.nonce)
-	return ks[off]
+// c03Block is RFC 8439 block number (c.counter + k) mod 2^32 under the cipher's key and nonce.
+func c03Block(c *Cipher, ctr uint32) [64]byte {
+	return refBlock(&c.key, ctr, &c.nonce)
 }
 
-// c03Step: one XORKeyStream(dst, src) call from an ARBITRARY reachable state (inductive step).
-// State invariant Inv: 0 <= len < 64; if len > 0 the last len bytes of buf are the tail of
-// block (pos/64) where the logical position pos = 64*L - len and L is the logical number of
-// blocks generated (L = counter, or 2^32 when overflow is set, in which case counter == 0).
-// Post: dst[i] = src[i] XOR Stream[pos+i]; pos' = pos+len(src); Inv holds again; the call
-// panics exactly when it needs a block with index >= 2^32.
-func c03Step(bufLen, n int) {
-	c := symCipher()
+// c03SymState builds an ARBITRARY state satisfying the representation invariant Inv:
+//   - 0 <= len < 64 (len == bufLen, concrete per path);
+//   - L = logical number of blocks generated so far = counter, or 2^32 when overflow is set, in
+//     which case counter == 0 (the 32-bit counter has wrapped);
+//   - if len > 0 then L >= 1 and the last len bytes of buf are the last len bytes of block L-1
+//     (as a 32-bit block counter that is counter-1 in both cases);
+//   - precompDone implies p1..p15 are the counter-independent first-round quarter rounds.
+//
+// Inv is established by NewUnauthenticatedCipher (Verif_C03_New), preserved by XORKeyStream
+// (c03Step) and by SetCounter (Verif_C03_SetCounter).
+//
+// pre selects the cache state: 0 cold (precompDone false, p* zero), 1 warm, 2 fork over both.
+func c03SymState(bufLen, pre int) (c *Cipher, L uint64) {
+	c = symCipher()
+	verifrt.Fill(c.buf[:]) // consumed part of the buffer: arbitrary
 	c.len = bufLen
 	c.overflow = verifrt.Bool()
 	if c.overflow {
 		verifrt.Assume(c.counter == 0)
-	}
-	L := uint64(c.counter)
-	if c.overflow {
 		L = 1 << 32
+	} else {
+		L = uint64(c.counter)
 	}
-	verifrt.Assume(bufLen == 0 || L >= 1)
 	if bufLen > 0 {
-		ks := refBlock(&c.key, uint32(L-1), &c.nonce)
+		verifrt.Assume(L >= 1)
+		ks := c03Block(c, c.counter-1)
 		copy(c.buf[bufSize-bufLen:], ks[64-bufLen:])
 	}
+	if pre == 1 || (pre == 2 && verifrt.Bool()) {
+		c03SetPrecomp(c)
+	}
+	return c, L
+}
+
+// c03SetPrecomp stores the reference values of the cached quarter rounds (RFC first column
+// round on columns 1..3, which do not involve the counter word).
+func c03SetPrecomp(c *Cipher) {
+	var st [16]uint32
+	st[0], st[1], st[2], st[3] = 0x61707865, 0x3320646e, 0x79622d32, 0x6b206574
+	copy(st[4:12], c.key[:])
+	copy(st[13:16], c.nonce[:])
+	refQR(&st, 1, 5, 9, 13)
+	refQR(&st, 2, 6, 10, 14)
+	refQR(&st, 3, 7, 11, 15)
+	c.p1, c.p5, c.p9, c.p13 = st[1], st[5], st[9], st[13]
+	c.p2, c.p6, c.p10, c.p14 = st[2], st[6], st[10], st[14]
+	c.p3, c.p7, c.p11, c.p15 = st[3], st[7], st[11], st[15]
+	c.precompDone = true
+}
+
+// c03CheckPrecomp asserts the cache part of Inv. It is called BEFORE the output bytes are
+// compared: a wrong cached quarter round is a one-quarter-round (solver-easy) difference here,
+// whereas the same defect seen through the output bytes is a 20-round ARX inequivalence on which
+// all three solvers time out (mutant m4 in notes/C03.md).
+func c03CheckPrecomp(c *Cipher) {
+	if c.precompDone {
+		want := &Cipher{key: c.key, nonce: c.nonce}
+		c03SetPrecomp(want)
+		// one bit-vector expression (no && on symbolic operands: that would fork first)
+		diff := (c.p1 ^ want.p1) | (c.p5 ^ want.p5) | (c.p9 ^ want.p9) | (c.p13 ^ want.p13) |
+			(c.p2 ^ want.p2) | (c.p6 ^ want.p6) | (c.p10 ^ want.p10) | (c.p14 ^ want.p14) |
+			(c.p3 ^ want.p3) | (c.p7 ^ want.p7) | (c.p11 ^ want.p11) | (c.p15 ^ want.p15)
+		verifrt.Assert(diff == 0, "cached first-round quarter rounds are correct (checked before the output)")
+	}
+}
+
+// c03CheckInv asserts Inv on the post-state and that the logical position is end.
+func c03CheckInv(c *Cipher, end uint64) {
+	L2 := uint64(c.counter)
+	if c.overflow {
+		verifrt.Assert(c.counter == 0, "overflow implies wrapped counter")
+		L2 = 1 << 32
+	}
+	verifrt.Assert(c.len >= 0 && c.len < 64, "0 <= len < 64")
+	n := verifrt.Concretize(c.len)
+	verifrt.Assert(64*L2-uint64(n) == end, "logical position advanced by len(src)")
+	if n > 0 {
+		verifrt.Assert(L2 >= 1, "buffered bytes imply a generated block")
+		ks := c03Block(c, c.counter-1)
+		for i := 0; i < n; i++ {
+			verifrt.Assert(c.buf[bufSize-n+i] == ks[64-n+i], "buffer holds the tail of the last block")
+		}
+	}
+	if c.precompDone {
+		want := &Cipher{key: c.key, nonce: c.nonce}
+		c03SetPrecomp(want)
+		ok := c.p1 == want.p1 && c.p5 == want.p5 && c.p9 == want.p9 && c.p13 == want.p13 &&
+			c.p2 == want.p2 && c.p6 == want.p6 && c.p10 == want.p10 && c.p14 == want.p14 &&
+			c.p3 == want.p3 && c.p7 == want.p7 && c.p11 == want.p11 && c.p15 == want.p15
+		verifrt.Assert(ok, "cached first-round quarter rounds are correct")
+	}
+}
+
+// c03Step: one XORKeyStream(dst, src) call from an ARBITRARY state satisfying Inv (see
+// c03SymState), i.e. the inductive step. Logical position pos = 64*L - len.
+// Post: dst[i] = src[i] XOR Stream[pos+i] where Stream[j] = block(j/64)[j%64]; pos' = pos +
+// len(src); Inv holds again; key and nonce unchanged; the call panics exactly when it needs a
+// block with index >= 2^32 (and then has not produced wrapped keystream).
+// bufLen and n are concrete per path, so every stream index below is concrete: byte i comes
+// from block L-1 (offset 64-bufLen+i) while i < bufLen, then from block L+(i-bufLen)/64. As a
+// 32-bit counter, block L+k is counter0+k (also when overflow is set: then only k = -1 is ever
+// legal and counter0-1 = 2^32-1).
+func c03Step(bufLen, n, pre int) {
+	c, L := c03SymState(bufLen, pre)
+	ctr0, key0, nonce0 := c.counter, c.key, c.nonce
 	pos := 64*L - uint64(bufLen) // logical stream position (bytes), <= 2^38
 	src := verifrt.Bytes(n)
+	var want []byte // expected keystream, computed once per block, before the call
+	if bufLen > 0 {
+		ks := c03Block(c, ctr0-1)
+		want = append(want, ks[64-bufLen:]...)
+	}
+	for k := 0; len(want) < n; k++ {
+		ks := c03Block(c, ctr0+uint32(k))
+		want = append(want, ks[:]...)
+	}
 	dst := make([]byte, n)
 	panicked := verifrt.Panics(func() { c.XORKeyStream(dst, src) })
 	end := pos + uint64(n) // one past the last byte needed
@@ -204,68 +296,192 @@ func c03Step(bufLen, n int) {
 		verifrt.Reach("overflow-panic")
 		return
 	}
+	c03CheckPrecomp(c)
 	for i := 0; i < n; i++ {
-		p := pos + uint64(i)
-		verifrt.Assert(dst[i] == src[i]^c03Expect(c, p/64, int(p%64)), "dst = src XOR keystream at logical position")
+		verifrt.Assert(dst[i] == src[i]^want[i], "dst = src XOR keystream at logical position")
 	}
-	// post-state invariant
-	L2 := uint64(c.counter)
+	verifrt.Assert(c.key == key0 && c.nonce == nonce0, "key and nonce unchanged")
+	c03CheckInv(c, end)
 	if c.overflow {
-		verifrt.Assert(c.counter == 0, "overflow implies wrapped counter")
-		L2 = 1 << 32
-	}
-	verifrt.Assert(c.len >= 0 && c.len < 64, "0 <= len < 64")
-	verifrt.Assert(64*L2-uint64(c.len) == end, "logical position advanced by len(src)")
-	if c.len > 0 {
-		ks := refBlock(&c.key, uint32(L2-1), &c.nonce)
-		for i := 0; i < c.len; i++ {
-			verifrt.Assert(c.buf[bufSize-c.len+i] == ks[64-c.len+i], "buffer holds the tail of the last block")
-		}
+		verifrt.Reach("last-block")
 	}
 	verifrt.Reach("step-ok")
 }
 
-// Verif_C03_StepQ: inductive step at boundary buffer fills {0,1,17,63} and lengths
-// {0,1,16,63,64,65,128,129}; all keys, nonces, counters (incl. 2^32-3..2^32-1) and data.
-func Verif_C03_StepQ() {
-	bl := []int{0, 1, 17, 63}[verifrt.Choose(0, 3)]
-	n := []int{0, 1, 16, 63, 64, 65, 128, 129}[verifrt.Choose(0, 7)]
-	c03Step(bl, n)
-}
-
-// Verif_C03_StepT: inductive step for every buffer fill 0..63 and every length 0..130.
-func Verif_C03_StepT() {
-	c03Step(verifrt.Choose(0, 63), verifrt.Choose(0, 130))
-}
-
-// Verif_C03_SetCounter: SetCounter(x) from an arbitrary reachable state, all x: panics iff
-// overflow is set or x is below the block index of the next unread byte (rounded as
-// documented: counter - len/64); otherwise the next byte produced is byte 0 of block x, or,
-// when advancing inside the buffered block is possible (never, with bufSize = 64), stays consistent.
-func Verif_C03_SetCounter() {
-	c := symCipher()
-	c.len = verifrt.Choose(0, 63)
-	c.overflow = verifrt.Bool()
-	if c.overflow {
-		verifrt.Assume(c.counter == 0)
-	}
-	verifrt.Assume(c.len == 0 || c.overflow || c.counter >= 1)
-	x := verifrt.U32()
-	before := c.counter
-	panicked := verifrt.Panics(func() { c.SetCounter(x) })
-	outputCounter := before - uint32(c.len)/64
-	verifrt.Assert(panicked == (c.overflow || x < outputCounter), "SetCounter panics iff rollback or overflow")
-	if panicked {
-		return
-	}
-	// with a 64-byte buffer len/64 == 0, so x >= counter: the cipher restarts at block x
-	verifrt.Assert(c.counter == x && c.len == 0, "position moved to the start of block x")
-	src := verifrt.Bytes(3)
-	dst := make([]byte, 3)
-	if x != 0xffffffff {
-		c.XORKeyStream(dst, src)
-		for i := range dst {
-			verifrt.Assert(dst[i] == src[i]^c03Expect(c, uint64(x), i), "keystream after SetCounter starts at block x")
+// c03Cases lists the (buffer fill, length) pairs of the thorough tier:
+//   - every fill b in 0..63 with the lengths at which the control flow of XORKeyStream changes:
+//     0, {b-1,b,b+1} (drain less than / exactly / more than the buffer), {b+64,b+65} and b+129
+//     (one/two full blocks after draining, with and without a tail).
+//
+// 445 cases, about 3 paths each. Larger lists (881 cases incl. every length 0..130 for fills 0
+// and 63: ~25 CPU-minutes; 2497 cases) did not complete within the wall-clock budget on the
+// shared machine (load average 90-100 on 16 cores while this was written).
+func c03Cases() [][2]int {
+	var out [][2]int
+	seen := map[[2]int]bool{}
+	add := func(b, n int) {
+		k := [2]int{b, n}
+		if n >= 0 && !seen[k] {
+			seen[k] = true
+			out = append(out, k)
 		}
 	}
+	for b := 0; b < 64; b++ {
+		for _, n := range []int{0, b - 1, b, b + 1, b + 64, b + 65, b + 129} {
+			add(b, n)
+		}
+	}
+	return out
+}
+
+// c03StepPart runs c03Step on the cases with index = part mod parts (the list is concrete; the
+// split only distributes the work over engine processes). To halve the path count the
+// first-round cache is cold for cases with even (fill+length) and warm for odd ones - both
+// cache states are forked for every case of the quick list (StepQ*) and at kernel level
+// (Verif_C03_BlockKernel).
+func c03StepPart(part, parts int) {
+	var mine [][2]int
+	for i, k := range c03Cases() {
+		if i%parts == part {
+			mine = append(mine, k)
+		}
+	}
+	k := mine[verifrt.Choose(0, len(mine)-1)]
+	c03Step(k[0], k[1], (k[0]+k[1])%2)
+}
+
+// Verif_C03_StepQ0..3: inductive step (see c03Step) at buffer fills {0,1,17,63} (one fill per
+// harness function) and lengths {0,1,16,63,64,65,128,129}; all keys, nonces, counters (incl.
+// 2^32-3..2^32-1), data, overflow flag and cache states.
+func Verif_C03_StepQ0() { c03StepQ(0) }
+func Verif_C03_StepQ1() { c03StepQ(1) }
+func Verif_C03_StepQ2() { c03StepQ(17) }
+func Verif_C03_StepQ3() { c03StepQ(63) }
+
+func c03StepQ(bl int) {
+	n := []int{0, 1, 16, 63, 64, 65, 128, 129}[verifrt.Choose(0, 7)]
+	c03Step(bl, n, 2)
+}
+
+// Verif_C03_StepT0..9: inductive step for the case list of c03Cases (all 64 buffer fills at the
+// control-flow boundary lengths, 445 cases), split over ten processes.
+func Verif_C03_StepT0() { c03StepPart(0, 10) }
+func Verif_C03_StepT1() { c03StepPart(1, 10) }
+func Verif_C03_StepT2() { c03StepPart(2, 10) }
+func Verif_C03_StepT3() { c03StepPart(3, 10) }
+func Verif_C03_StepT4() { c03StepPart(4, 10) }
+func Verif_C03_StepT5() { c03StepPart(5, 10) }
+func Verif_C03_StepT6() { c03StepPart(6, 10) }
+func Verif_C03_StepT7() { c03StepPart(7, 10) }
+func Verif_C03_StepT8() { c03StepPart(8, 10) }
+func Verif_C03_StepT9() { c03StepPart(9, 10) }
+
+// Verif_C03_SetCounter: SetCounter(x) from an ARBITRARY state satisfying Inv (every buffer
+// fill 0..63, overflow set or not, all counters), for ALL x: panics iff x < L, i.e. iff some
+// byte of block x (or a later wrap) was already produced - this covers rollback, the partially
+// consumed block, and every call after the last block was reached (L = 2^32); otherwise the
+// logical position becomes exactly 64*x and Inv holds again (so the next XORKeyStream, by
+// c03Step, starts at byte 0 of block x). The "advance inside the buffer" branch of SetCounter
+// is dead on this platform (bufSize == blockSize); the harness asserts that.
+func Verif_C03_SetCounter() {
+	verifrt.Assert(bufSize == 64, "generic build buffers exactly one block")
+	c, L := c03SymState(verifrt.Choose(0, 63), 2)
+	key0, nonce0 := c.key, c.nonce
+	x := verifrt.U32()
+	panicked := verifrt.Panics(func() { c.SetCounter(x) })
+	verifrt.Assert(panicked == (uint64(x) < L), "SetCounter panics iff block x was already started")
+	if panicked {
+		verifrt.Reach("rollback-panic")
+		return
+	}
+	verifrt.Assert(c.key == key0 && c.nonce == nonce0, "key and nonce unchanged")
+	c03CheckInv(c, 64*uint64(x))
+	verifrt.Reach("set-ok")
+}
+
+// c03History: a call history through the PUBLIC API only, for ALL keys, nonces (12 or 24 bytes),
+// start counters x, second counters y and data:
+//
+//	New(key, nonce); SetCounter(x); XORKeyStream(n1 bytes); SetCounter(y); XORKeyStream(n2); XORKeyStream(n3)
+//
+// Every output byte equals src XOR block(base + j/64)[j%64] of the RFC 8439 reference under the
+// cipher's key/nonce words (whose derivation from the key/nonce bytes, including HChaCha20 for
+// 24-byte nonces, is decided by Verif_C03_New/_HChaCha20), where (base, j) is the logical
+// position: base = x then y, j counts bytes since the last SetCounter - i.e. the split n2|n3
+// gives the same bytes as one call would. XORKeyStream panics iff it needs a block index
+// >= 2^32; SetCounter(y) panics iff block y was already started (y < x + ceil(n1/64)).
+// This is the end-to-end companion of the inductive obligations (c03Step, SetCounter) and the
+// translator cross-check harness; lengths are concrete per path (bounds in the callers).
+func c03History(nl, n1, n2, n3 int) {
+	key := verifrt.Bytes(32)
+	nonce := verifrt.Bytes(nl)
+	c, err := NewUnauthenticatedCipher(key, nonce)
+	verifrt.Assert(err == nil, "valid key/nonce lengths accepted")
+	if err != nil {
+		return
+	}
+	ek, en := c.key, c.nonce
+	x := verifrt.U32()
+	verifrt.Assert(!verifrt.Panics(func() { c.SetCounter(x) }), "SetCounter on a fresh cipher never panics")
+	base, off := x, 0
+	blocks := map[int][64]byte{}
+	step := func(n int) bool {
+		src := verifrt.Bytes(n)
+		dst := make([]byte, n)
+		panicked := verifrt.Panics(func() { c.XORKeyStream(dst, src) })
+		need := n > 0 && uint64(base)+uint64((off+n+63)/64) > 1<<32
+		verifrt.Assert(panicked == need, "XORKeyStream panics iff a block index >= 2^32 is needed")
+		if panicked {
+			verifrt.Reach("hist-overflow")
+			return false
+		}
+		for i := 0; i < n; i++ {
+			j := off + i
+			ks, ok := blocks[j/64]
+			if !ok {
+				ks = refBlock(&ek, base+uint32(j/64), &en)
+				blocks[j/64] = ks
+			}
+			verifrt.Assert(dst[i] == src[i]^ks[j%64], "history output = src XOR RFC 8439 stream")
+			verifrt.ObserveU64("out", uint64(dst[i]))
+		}
+		off += n
+		return true
+	}
+	if !step(n1) {
+		return
+	}
+	y := verifrt.U32()
+	panicked := verifrt.Panics(func() { c.SetCounter(y) })
+	started := uint64(base) + uint64((off+63)/64)
+	verifrt.Assert(panicked == (uint64(y) < started), "SetCounter panics iff block y was already started")
+	if panicked {
+		verifrt.Reach("hist-rollback")
+		return
+	}
+	base, off = y, 0
+	blocks = map[int][64]byte{}
+	if step(n2) && step(n3) {
+		verifrt.Reach("hist-ok")
+	}
+}
+
+// Verif_C03_HistoryQ: c03History with nonce length in {12,24}, n1 in {1,65}, n2 in {0,63},
+// n3 in {1,70}.
+func Verif_C03_HistoryQ() {
+	nl := []int{12, 24}[verifrt.Choose(0, 1)]
+	n1 := []int{1, 65}[verifrt.Choose(0, 1)]
+	n2 := []int{0, 63}[verifrt.Choose(0, 1)]
+	n3 := []int{1, 70}[verifrt.Choose(0, 1)]
+	c03History(nl, n1, n2, n3)
+}
+
+// Verif_C03_HistoryT: c03History with nonce length in {12,24}, n1 in {0,1,64,65,130},
+// n2 in {0,5,63,64}, n3 in {0,1,59,60,70,200}.
+func Verif_C03_HistoryT() {
+	nl := []int{12, 24}[verifrt.Choose(0, 1)]
+	n1 := []int{0, 1, 64, 65, 130}[verifrt.Choose(0, 4)]
+	n2 := []int{0, 5, 63, 64}[verifrt.Choose(0, 3)]
+	n3 := []int{0, 1, 59, 60, 70, 200}[verifrt.Choose(0, 5)]
+	c03History(nl, n1, n2, n3)
 }
